@@ -110,7 +110,7 @@ func VfC16Churn() {
 	vfP = p
 	ls := make([]*vfLinkState, L)
 	for i := range ls {
-		ls[i] = &vfLinkState{l: &LinkBase{conn: &vfConn{}, peering: p, closed: make(chan struct{}), peer: vfAddr16()}}
+		ls[i] = &vfLinkState{l: &LinkBase{conn: &vfConn{closeErr: vf.Bool()}, peering: p, closed: make(chan struct{}), peer: vfAddr16()}}
 	}
 	for k := 0; k < K; k++ {
 		s := ls[vf.Choose(L)]
